@@ -418,6 +418,18 @@ def run_check(mod, tier, seed, replay=None):
     # 3. correspondence + oracle (always; when the proof is broken or the
     #    driver cannot run, the module falls back to oracle-only search)
     ctx.search_mode = not proof_ok
+    def _escaped(e):
+        # an exception escaping the property module on a tree where the check normally passes is
+        # the implementation misbehaving in a way the module did not anticipate: report it as a
+        # failing input (with the traceback as the replay), never as an infrastructure error
+        import traceback
+        tb = traceback.format_exc()
+        frames = [l.strip() for l in tb.splitlines() if REPO in l or "nengo_spa" in l]
+        ctx.fail({"exception": type(e).__name__, "message": str(e)[:300], "implementation_frames": frames[-4:]},
+                 f"{type(e).__name__} escaped from the implementation", "no unexpected exception",
+                 where="unexpected-exception")
+        ctx.note("traceback: " + tb[-1500:])
+
     try:
         mod.run(ctx)
     except DriverError as e:
@@ -429,6 +441,10 @@ def run_check(mod, tier, seed, replay=None):
             mod.run(ctx)
         except DriverError:
             pass
+        except Exception as e2:
+            _escaped(e2)
+    except Exception as e:
+        _escaped(e)
     # a difference triggers the deeper search once
     if (ctx.diffs or not proof_ok) and not ctx.oracle_failures and hasattr(mod, "search"):
         try:
